@@ -83,6 +83,60 @@ def new_interp(prog, poll_budget=1, runtime='ActorRuntime'):
     def m_into_err(I, st, f, args, fr):
         return I.ret(st, Opaque('boxed-error', info=args[0]))
 
+    # ---- thread-local runtime: the spawner thread. `ThreadLocalActorSpawner::spawn(builder, name)` either finds the spawner gone (the builder is dropped
+    # unrun) or the spawner thread calls `builder()`, runs the returned start-up future as a local task and hands its result back.
+    def tl_spawn(I, st, f, args, fr):
+        return I.ret(st, Opaque('tlspawn', info={'builder': args[1], 'n': fresh_id()}))
+    ov.append((re.compile(r'ThreadLocalActorSpawner::spawn$'), tl_spawn))
+
+    @I.model(r'^<.* as (futures::)?FutureExt>::boxed_local$|(^|::)FutureExt::boxed_local(::<.*>)?$', 'FutureExt::boxed_local (Pin<Box<dyn Future>>)')
+    def m_boxed_local(I, st, f, args, fr):
+        return I.ret(st, BoxV(st.alloc(args[0]), 'Box'))
+
+    @I.model(r'^<TActor as Default>::default$', 'the thread-local handler is built on the spawner thread (opaque)')
+    def m_handler_default(I, st, f, args, fr):
+        return I.ret(st, Opaque('TActor', ident='the-handler'))
+
+    prev_po = I.hooks.get('poll_other')
+
+    def poll_tlspawn(I, st, v, cell, path, cx, fr):
+        if not (isinstance(v, Opaque) and v.tag == 'tlspawn'):
+            return prev_po(I, st, v, cell, path, cx, fr) if prev_po else None
+        key = ('tlspawn', v.info['n'])
+        outs = []
+        startup_failed = lambda s, why: models_std.ready(models_std.err(Enum('SpawnErr', 'StartupFailed', 0, (Opaque('boxed-error', info=why),))))
+        if key not in st.ghost:
+            # spawner dead: the request never runs; the builder (owning ports, guard, arguments) is dropped
+            s0 = st.fork()
+            s0.emit('FX', 'spawner_dead')
+            for o in I.drop_value(s0, v.info['builder'], None):
+                if o.kind == 'ret':
+                    outs.append(Outcome(o.st, 'ret', startup_failed(o.st, 'Spawner dead')))
+                else:
+                    outs.append(o)
+            b = v.info['builder']
+            clo = I.read(st, b.cell, ()) if isinstance(b, BoxV) else b
+            started = []
+            for o in I.call_closure(st, clo, [], fr, by='value'):
+                if o.kind != 'ret':
+                    outs.append(Outcome(o.st, 'ret', startup_failed(o.st, 'join error')))
+                    continue
+                fut = o.val
+                o.st.ghost[key] = fut.cell if isinstance(fut, BoxV) else o.st.alloc(fut)
+                started.append(o.st)
+        else:
+            started = [st]
+        for s in started:
+            for o in I.poll_at(I, s, s.ghost[key], (), cx, fr):
+                if o.kind == 'unwind':
+                    # the start-up task panicked: JoinError
+                    o.st.emit('CAUGHT', 'startup task panic')
+                    outs.append(Outcome(o.st, 'ret', startup_failed(o.st, 'join error')))
+                else:
+                    outs.append(o)
+        return outs
+    I.hooks['poll_other'] = poll_tlspawn
+
     def chan_ident(I, st, o, value):
         if o.oid in ('sup_supq', 'obs_supq'):
             v = value
@@ -156,7 +210,8 @@ class Actor:
         guard = Agg('ActorLifecycleGuard', [g[k] for k in gd['fields']])
         r = {'actor_ref': self.actor_ref, 'lifecycle': guard, 'handler': Opaque('TActor', ident='the-handler'), 'id': Enum('ActorId', 'Local', 0, (self.I.mk_int(1, 'u64'),)),
              'name': models_std.NONE}
-        if sorted(rd['fields']) != sorted(r):
+        # the thread-local runtime keeps its handler outside the struct (it is built on the actor's own thread)
+        if not (set(rd['fields']) <= set(r) and {'actor_ref', 'lifecycle', 'id', 'name'} <= set(rd['fields'])):
             raise Inconclusive('%s fields changed: %s' % (self.I.runtime, rd['fields']))
         return Agg(self.I.runtime, [r[k] for k in rd['fields']])
 
